@@ -13,6 +13,7 @@ import (
 	"fmt"
 	"go/token"
 	"go/types"
+	"sort"
 	"strings"
 
 	"golang.org/x/tools/go/ssa"
@@ -688,4 +689,80 @@ func helperSetsIndex(r *Run, v ssa.Value, idx *ssa.Parameter) bool {
 		}
 	}
 	return true
+}
+
+// fanoutOwnerWrites: confirmed writes to the owning object from inside a fan-out.
+var fanoutOwnerWrites = map[string]tabEntry{
+	"queryer.(*MultiOpQueryer).sendRequest/store MultiOpQueryer.client": {1,
+		"lazy default `if q.client == nil { q.client = &http.Client{} }`: two chunks of one Query can both see nil and both store an equivalent empty client — a benign data race (every stored value behaves the same and the default factory always sets a client), recorded rather than silenced"},
+}
+
+// ruleFanoutOwner (R3i): the workers of a fan-out do not write the object whose method started
+// the fan-out. For every AsyncMapReduce call inside a method, the functions reachable from its
+// map function neither store to a field of the method's receiver type nor hand the address of
+// such a field to sync/atomic: the workers of one fan-out run concurrently and finish in any
+// order, so a flag or counter on the shared object makes what one worker does depend on how
+// far its siblings have got.
+func ruleFanoutOwner(r *Run) {
+	const rule = "R3i"
+	n := 0
+	for _, fn := range r.P.Funcs {
+		call, mapF, _ := r.amrSite(fn)
+		if call == nil || mapF == nil || topFn(fn).Signature.Recv() == nil {
+			continue
+		}
+		owner := namedOf(topFn(fn).Signature.Recv().Type())
+		if owner == "" || owner == modPath+".Gateway" {
+			continue // Gateway state has its own rule (R3b)
+		}
+		n++
+		region := r.P.CG.Reachable([]*ssa.Function{mapF}, nil)
+		var fs []*ssa.Function
+		for g := range region {
+			fs = append(fs, g)
+		}
+		sort.Slice(fs, func(i, j int) bool { return fnName(fs[i]) < fnName(fs[j]) })
+		bad := 0
+		for _, g := range fs {
+			for _, ins := range allInstrs(g) {
+				var fa *ssa.FieldAddr
+				what := ""
+				switch x := ins.(type) {
+				case *ssa.Store:
+					if f, ok := x.Addr.(*ssa.FieldAddr); ok {
+						fa, what = f, "store"
+					}
+				case ssa.CallInstruction:
+					c := x.Common()
+					if strings.HasPrefix(calleeName(c), "sync/atomic.") && len(c.Args) > 0 {
+						if f, ok := c.Args[0].(*ssa.FieldAddr); ok {
+							fa, what = f, calleeName(c)
+						}
+					}
+					if strings.HasPrefix(calleeName(c), "(*sync/atomic.") && len(c.Args) > 0 {
+						if f, ok := c.Args[0].(*ssa.FieldAddr); ok {
+							fa, what = f, calleeName(c)
+						}
+					}
+				}
+				if fa == nil || namedOf(fa.X.Type()) != owner || fieldOf(fa) == nil {
+					continue
+				}
+				if al, isAl := fa.X.(*ssa.Alloc); isAl && al.Parent() == g {
+					continue // a fresh object of the owner's type
+				}
+				bad++
+				construct := what + " " + shortStruct(owner) + "." + fieldOf(fa).Name()
+				if reason, ok := useTable(r, fanoutOwnerWrites, fnName(g)+"/"+construct); ok {
+					r.Tabled(rule, fnName(g), construct, r.P.pos(ins.Pos()), "fanoutOwnerWrites", reason)
+					continue
+				}
+				r.Bad(rule, fnName(g), construct, r.P.pos(ins.Pos()), "a worker of the fan-out started by "+fnName(fn)+" writes the object that owns the fan-out ("+shortStruct(owner)+"): its siblings run concurrently and read that object, so what they do — which errors are reported, what is skipped — depends on which of them got there first")
+			}
+		}
+		if bad == 0 {
+			r.OK(rule, fnName(fn), "workers leave "+shortStruct(owner)+" alone", r.P.pos(call.Pos()), fmt.Sprintf("none of the %d functions reachable from the map function stores to a field of the owner or passes one to sync/atomic", len(fs)))
+		}
+	}
+	r.AtLeast(rule, "fan-outs started by methods", n, 3)
 }
